@@ -1,5 +1,6 @@
 import Tcell.Lemmas.TextTokens
 import Tcell.Lemmas.KeyPrefixFree
+import Tcell.Lemmas.SgrStrict
 /-
 C11: the individual parsers on text.  A character whose encoding obeys the codec laws (`CodecChar`) is a good token;
 so are the bracketed-paste markers and the focus reports when the key table satisfies the decidable conditions
@@ -153,13 +154,13 @@ theorem sgrRun_short (cfg : Cfg) (st : PState) : ∀ (b : Bytes) (s : SgrSt) (i 
   | cons c rest ih =>
     intro s i h
     unfold sgrRun
-    cases hs : sgrStep s c with
+    cases hs : sgrStepV cfg.sgrStrict s c with
     | rej => exact Or.inr rfl
     | cont s' =>
-      have := sgrStep_rank s s' c hs
+      have := sgrStep_rank s s' c (Tcell.Lemmas.SgrStrict.sgrStepV_cont _ s s' c hs)
       exact ih s' (i + 1) (by simp at h; omega)
     | fin x y btn rel =>
-      have := sgrStep_fin s c x y btn rel hs
+      have := sgrStep_fin s c x y btn rel (Tcell.Lemmas.SgrStrict.sgrStepV_fin _ s c x y btn rel hs)
       simp at h; omega
 
 theorem parseSgrMouse_short (cfg : Cfg) (st : PState) (b : Bytes) (h : b.length ≤ 4) : Silent (parseSgrMouse cfg st b) := by
